@@ -12,8 +12,9 @@ From SqlModel.Gen Require LexPins.   (* the scan loop, is_keyword, consume and t
 From SqlModel.Props Require C11g.   (* letter case: all 25 grouping passes and parse, unbounded *)
 From SqlModel Require Import Base PyStr Re Lexer SplitDefs Splitter Node Passes MatchSpec.
 From SqlModel Require Import Skeleton SkeletonFacts Skel SkelFacts WsRun.
-From SqlModel.Gen Require Import CaseTabs SplitTab.
-From SqlModel.Inst Require Import Cur CaseInv WsRunInst C11Wit C11Case C11Multi.
+From SqlModel.Gen Require Import CaseTabs SplitTab Rules.
+From SqlModel.Inst Require Import Cur CaseInv WsRunInst C11Wit C11Case C11Multi C11Run.
+From SqlModel Require Import RunInvDefs RunInv RunLex.
 
 (* ---- lexer ---------------------------------------------------------------------------------- *)
 (* letter case of ASCII letters: same token types and boundaries (keywords, and everything else) *)
@@ -43,6 +44,45 @@ Print Assumptions C11_lex_ws_run.
 Theorem C11_multiword_fin : forallb mw_check mw_keywords = true.
 Proof. exact C11Multi.C11_multiword_fin. Qed.
 Print Assumptions C11_multiword_fin.
+
+(* UNBOUNDED (every run, every context): at a position whose next character is an ASCII letter the rule of the table
+   that matches and the place where its match ends do not depend on the LENGTH or the SPELLING of the white-space
+   runs of the text.  RS relates two texts that are equal outside their white-space runs and have non-empty runs at
+   the same places; first_rel: both attempts fail, or the same rule (the same action) matches and the two remainders
+   are again related.  The TZCast rule (its quoted part may contain white space) is left to a hypothesis, which holds
+   outright when the letter is not A or W (tz_quiet_letter, tz_letters). *)
+Theorem C11_first_match_run : forall ch p p' t t',
+  In ch all_letters -> prel RSp p p' -> RS RSp (ch :: t) (ch :: t') ->
+  tz_quiet (mkSt p (ch :: t)) -> tz_quiet (mkSt p' (ch :: t')) ->
+  first_rel RSp (mkSt p (ch :: t)) (mkSt p' (ch :: t'))
+            (cur_first_match (mkSt p (ch :: t))) (cur_first_match (mkSt p' (ch :: t'))).
+Proof. exact C11Run.C11_first_match_run. Qed.
+Print Assumptions C11_first_match_run.
+
+(* one run re-spelled (ORDER<R>BY... and ORDER<R'>BY...), the rest of the text kept *)
+Theorem C11_first_match_respell : forall ch w R R' u p,
+  In ch all_letters -> forallb (fun c => negb (inS RSp c)) w = true ->
+  R <> [] -> R' <> [] -> forallb (inS RSp) R = true -> forallb (inS RSp) R' = true -> snext_t RSp u = false ->
+  tz_quiet (mkSt p (ch :: w ++ R ++ u)) -> tz_quiet (mkSt p (ch :: w ++ R' ++ u)) ->
+  first_rel RSp (mkSt p (ch :: w ++ R ++ u)) (mkSt p (ch :: w ++ R' ++ u))
+            (cur_first_match (mkSt p (ch :: w ++ R ++ u))) (cur_first_match (mkSt p (ch :: w ++ R' ++ u))).
+Proof. exact C11Run.C11_first_match_respell. Qed.
+Print Assumptions C11_first_match_respell.
+
+(* the general statement it instantiates: ANY regular expression of the syntactic class (good kd), any two related
+   states: the lists of results (after the filter of a dead continuation) are related position by position *)
+Theorem C11_run_sim : forall lower S r kd, good S kd r = true -> forall x x' c c', srel S x x' ->
+  Forall2 (rrel S) (surv S kd (ends lower r x c)) (surv S kd (ends lower r x' c')).
+Proof. exact RunInv.good_sim. Qed.
+Print Assumptions C11_run_sim.
+
+(* the class check of the CURRENT table (regenerated from keywords.py on every run) *)
+Theorem C11_run_table :
+  forallb (fun ch => negb (inS RSp ch) && forallb (rule_ok ch) sql_regex) all_letters = true.
+Proof. exact C11Run.C11_run_table. Qed.
+
+Theorem C11_RS_refl : forall S t, RS S t t.
+Proof. exact RunLex.RS_refl. Qed.
 
 (* ---- splitter ---------------------------------------------------------------------------------- *)
 (* THE skeleton relation (same significant tokens up to keyword case / inner whitespace, whitespace runs
